@@ -28,8 +28,7 @@ def adversarial_designs():
             y = h.Signal(width=2)
         return B
 
-    def child_with_bundle(B):
-        L = leaf()
+    def child_with_bundle(B, L):
         @h.module
         class CB:
             q = B(port=True)
@@ -73,7 +72,7 @@ def adversarial_designs():
             def b(suf=suf, first=first):
                 B = bun()
                 L = leaf()
-                CB = child_with_bundle(B)
+                CB = child_with_bundle(B, L)
                 m = h.Module(name="AdvBun")
                 m.v = h.Signal()
                 def adv():
